@@ -23,7 +23,7 @@ def build():
     m = {"version": 1, "setup_cmd": "./verify setup",
          "hooks": {"guard": "mscript_verif",
                    "enable": "RUSTFLAGS=\"--cfg mscript_verif\" CARGO_TARGET_DIR=/verif/.cache/target cargo build --offline (in /repo)",
-                   "baseline_off_cmd": "cd /repo && cargo test --workspace --no-fail-fast --offline",
+                   "baseline_off_cmd": "cd /repo && cargo nextest run --workspace --no-fail-fast --offline  (fallback: cargo test --workspace --no-fail-fast --offline -- --test-threads=1; classes registered in a process-global table make the in-process parallel runner flaky on the pinned tree too)",
                    "source_commits": hook_commits[::-1], "add_only": True},
          "engines": [{"name": "coq-proof+correspondence", "path": "/verif/coq, /verif/vlib, /verif/harness, /verif/extract, /verif/gen",
                       "serves_properties": claimed,
